@@ -19,3 +19,17 @@ MANIFEST_TEXT['C20'] = dict(
     text='Machine-checked Coq theorems about an executable model of DateTime.UnmarshalJSON / MarshalJSON (null detection exact, non-strings rejected, strings accepted iff the iso8601 parser model accepts them, no panic, calendar arithmetic exact on all of Z), for all byte strings and all instants; the model is tied to /repo on every run by differential execution of the extracted model and both types packages on >10^4 inputs (exhaustive short tokens, valid spellings with independently computed denotation, mutations, 7 layouts).',
     note='Trusted: Coq kernel + vm_compute, extraction (ExtrOcamlBasic only), the Go harness; relvacode/iso8601, time.Date/Format and encoding/json are modelled by hand and validated by the differential run, not verified. Open finding F22 (lenient third-party parser) is reported as KNOWN-FINDING.',
     technique='Coq proof over a hand-written Gallina model + differential correspondence (extracted OCaml vs Go)')
+
+PROPS['C12'] = Prop(
+    'C12', harness='c12', entries=['c12', 'c12_lin'], props_file='theories/Props/C12.v',
+    quick_n=300, thorough_n=8000, spec_entries=['c12', 'c12_lin'], search_n=4000,
+    trusted=['translator tools/cmd/extract/locktable.go (go/ast scan of the container methods: lock first, mode, writes)',
+             'internal/callbackqueue reached through the verif-tagged re-export /repo/verifhooks'],
+    assumptions=['elements / ids are opaque: modelled as integers; request id 0 stands for the empty string',
+                 'linearizability of recorded concurrent histories is decided by the extracted search on histories of at most 12 operations'],
+    rule='seeded random sequential operation sequences (3..37 ops) on the five real containers for capacities 0..4 plus a corpus; recorded concurrent histories (2-4 goroutines, bounded queue pre-filled to capacity-1) checked for linearizability by the extracted model; counted = distinct encoded inputs with more than 3 integers',
+    design_ref='5 C12')
+MANIFEST_TEXT['C12'] = dict(
+    text='Coq theorems, for every capacity and every operation sequence: bounded queue never exceeds its capacity, full push is a no-op failure, push succeeds after a pop, FIFO refinement (accepted = popped ++ content as sequences), callback queue roll-back exact / panic unreachable / FIFO per id, pending-state laws; atomicity of every container method proved on the lock table regenerated from the Go AST. Tied to /repo by differential runs of the extracted models against the real structs (sequential sequences, and linearizability of recorded concurrent histories).',
+    note='Trusted: Coq kernel + vm_compute, extraction, Go harness, the AST translator for the lock table. The generic step "atomic bodies => linearizable" is argued in DESIGN.md (M4) and exercised by the recorded-history search, not yet a Coq theorem. Endpoint-level "send on full queue is inert" is covered with C01.',
+    technique='Coq proof (induction over operation sequences) + generated lock table + differential correspondence incl. linearizability search')
